@@ -19,6 +19,14 @@ def _pu():
     return plot_utils
 
 
+def is_flag(got, want):
+    """a flag is judged by its truth value (0/1, numpy.bool_ and bool are all flags); anything that is not 0 or 1 is not a flag"""
+    try:
+        return bool(got in (0, 1)) and bool(got) == want
+    except Exception:  # pylint: disable=broad-except
+        return False
+
+
 def observe1(pu, v, lo, hi, t):
     chk = pu.checkLimits(v, lo, hi)
     tol = pu.checkLimitsTol(v, lo, hi, t)
@@ -37,7 +45,7 @@ def judge_vector(pu, st, a, b):
         want = {"chkV": f(exp["expV"]), "chkF": exp["expF"], "tolV": f(exp["expV"]), "tolF": exp["expFT"],
                 "con": f(exp["expV"])}
         for k, w in want.items():
-            if o[k] != w or (isinstance(w, bool) != isinstance(o[k], bool)):
+            if not (is_flag(o[k], w) if isinstance(w, bool) else (o[k] == w and not isinstance(o[k], bool))):
                 bad.append(("limits." + k, w, o[k]))
         drift = []
         impl = {"chkV": f(exp["chk"][0]), "chkF": exp["chk"][1], "tolV": f(exp["tol"][0]), "tolF": exp["tol"][1],
@@ -48,8 +56,13 @@ def judge_vector(pu, st, a, b):
         return bad, drift
     x, y, xlo, ylo, xhi, yhi, t = st["in"]
     got = pu.point_in_bounds([f(x), f(y)], [[f(xlo), f(ylo)], [f(xhi), f(yhi)]], a * t)
-    if got is not st["out"]["expIn"]:
+    if not is_flag(got, st["out"]["expIn"]):
         bad.append(("point_in_bounds", st["out"]["expIn"], got))
+    if t == 0 and a >= 2.0 ** -10 and abs(b) < 2.0 ** 20:
+        # the default tolerance (1e-9) is far below this lattice's step and above its rounding: the answer without a tolerance is the t = 0 answer
+        g0 = pu.point_in_bounds([f(x), f(y)], [[f(xlo), f(ylo)], [f(xhi), f(yhi)]])
+        if not is_flag(g0, st["out"]["expIn"]):
+            bad.append(("point_in_bounds_default_tolerance", st["out"]["expIn"], g0))
     return bad, []
 
 
@@ -71,7 +84,7 @@ def record_events(pu, rng, n):
             o = observe1(pu, c(v), c(lo), c(hi), c(t))
             e = {"k": "1d", "v": v, "lo": lo, "hi": hi, "t": t}
             for k, val in o.items():
-                e[k] = val if isinstance(val, bool) else _lat(val)
+                e[k] = bool(val) if (k.endswith("F") and is_flag(val, bool(val))) else val if isinstance(val, bool) else _lat(val)
         else:
             xlo, xhi = sorted((r(), r()))
             ylo, yhi = sorted((r(), r()))
@@ -163,7 +176,7 @@ def run(ctx):
     ctx.assumptions += ["inputs are integer lattice points mapped through exact affine maps; float rounding off the lattice is not modelled",
                         "lower <= upper and tolerance >= 0 (the statement's domain)"]
     return ctx.finish(
-        rule="G: every (value,lower,upper,tolerance) / 2-D vector of the TLC-enumerated lattice x 5 exact affine maps; "
+        rule="G: every (value,lower,upper,tolerance) / 2-D vector of the TLC-enumerated lattice x 7 exact affine maps; "
              "V: seeded random integer-valued inputs up to 2^29 judged by LimitsTrace; distinct = distinct (vector,map) or event",
         explanation="TLC checks impl-shaped operators refine the abstract clamp/flag statement on the whole lattice, "
                     "dumps every vector, the harness replays each into plot_utils; recorded random events are judged by TLC.")
